@@ -75,7 +75,6 @@ def worker(ctx):
     full = not ctx.quick
     if full:
         res.count("full_basis")
-    ctx.set_budget(260 if ctx.quick else 3300)
     # shard -> (pad width, half of the type list); 16 shards cover the whole space
     plan = [(s % 8, s // 8) for s in range(16)]
     mine = [p for i, p in enumerate(plan) if i % ctx.nshards == ctx.shard]
@@ -124,9 +123,6 @@ def worker(ctx):
                         res.violation("probe-py-decode", f"Python {t.text()} pad={offset} {name}: decode differs from the value", {**w, "got": got})
             finally:
                 mods.close()
-            if ctx.out_of_time():
-                res.inconclusive.append("time budget ended before the C runtimes were probed")
-                break
             # ---- C runtime, standard mode -----------------------------------
             dg = sut_c.DriverGen(root)
             reqs, meta = [], []
@@ -152,9 +148,6 @@ def worker(ctx):
             wrong = sum(1 for (m, t, name, v), r in zip(ctl, rs) if r.status == "OK" and r.payload(1) != ref.encode(m, v).hex())
             res.count("be_monitor_positive_control_failures_seen", wrong)
             os.unlink(exe)
-            if ctx.out_of_time():
-                res.inconclusive.append("time budget ended before the -O code was probed")
-                break
             # ---- C optimisation mode ----------------------------------------
             dgo = sut_c.DriverGen(root, with_json=False)
             built = {}
